@@ -13,6 +13,7 @@
  *   n:<call>:<role>:<nth>:err:<errno>     nth call fails with <errno>
  *   budget:<call>:<role>:<bytes>:<errno>  after <bytes> bytes in total, calls fail with <errno>
  *                                         (the call crossing the limit is a genuine short transfer)
+ *   all:<call>:<role>:<errno>             every call of (call,role) fails with <errno>
  *   chunk:<call>:<role>:<bytes>           every call transfers at most <bytes>
  *   eintr_every:<call>:<role>:<period>    every <period>-th call (period>=2) fails with EINTR
  *   dirshuffle:<seed>                     readdir order = entries sorted by name, shuffled by seed
@@ -64,6 +65,8 @@ static struct role_item chunks[MAXITEMS];
 static int n_chunk = 0;
 static struct role_item eintrs[MAXITEMS];
 static int n_eintr = 0;
+static struct role_item alls[MAXITEMS];
+static int n_all = 0;
 static int dirshuffle_on = 0;
 static unsigned long long dirshuffle_seed = 0;
 static unsigned long long rand_state = 0x1234567;
@@ -134,6 +137,11 @@ static void parse_item(char *item) {
         if (!strcmp(f[0], "budget") && n_budget < MAXITEMS) budgets[n_budget++] = it;
         else if (!strcmp(f[0], "chunk") && n_chunk < MAXITEMS) { if (it.val < 1) it.val = 1; chunks[n_chunk++] = it; }
         else if (!strcmp(f[0], "eintr_every") && n_eintr < MAXITEMS) { if (it.val < 2) it.val = 2; eintrs[n_eintr++] = it; }
+    } else if (!strcmp(f[0], "all") && nf >= 4) {
+        struct role_item it; memset(&it, 0, sizeof it);
+        it.call = parse_call(f[1]); it.role = parse_role(f[2]); it.err = atol(f[3]); it.on = 1;
+        if (it.call < 0 || it.role < 0 || n_all >= MAXITEMS) { logf_("X bad-item"); return; }
+        alls[n_all++] = it;
     } else if (!strcmp(f[0], "dirshuffle") && nf >= 2) {
         dirshuffle_on = 1; dirshuffle_seed = strtoull(f[1], 0, 10);
     } else if (!strcmp(f[0], "tty") && nf >= 2) {
@@ -198,6 +206,13 @@ static int decide(int call, int role, size_t want, size_t *allow) {
         if (it->action == A_SHORT && want > 1) {
             size_t lim = it->arg < 1 ? 1 : (size_t)it->arg;
             if (lim < *allow) { *allow = lim; logf_("I short %s %s %ld %zu->%zu", call_name[call], role_name[role], nth, want, lim); }
+        }
+    }
+    for (int i = 0; i < n_all; i++) {
+        struct role_item *it = &alls[i];
+        if (it->call == call && (it->role == role || it->role == R_ANY)) {
+            logf_("I err %s %s %ld errno=%ld", call_name[call], role_name[role], nth, it->err);
+            errno = (int)it->err; return -1;
         }
     }
     for (int i = 0; i < n_eintr; i++) {
